@@ -99,6 +99,52 @@ Definition route_chunk (shapes : list shape_t) (denies : list (list N)) (now : Z
 Definition gate_chunk (shapes : list shape_t) (denies : list (list N)) (now : Z) (offset : N) (cs : list gate_case) : chunk_result :=
   eval_chunk offset (map (gate_bad shapes denies now) cs).
 
+(* ---- the time window of the session cookie at its boundaries.  Each case carries the claims of a
+   token minted for that very request (seconds, as signed) and the two clock readings taken around the
+   request (NANOSECONDS: the code compares time.Unix(exp, 0) with time.Now(), and nbf with
+   time.Now().Unix()).  The model's window test is exact; the only tolerance is the measured interval:
+   the observation must be the model's answer for the reading before the request, the reading after it,
+   or a whole second in between (the answer as a function of the reading changes at whole seconds only). *)
+Definition ns (s : Z) : Z := (s * 1000000000)%Z.
+Definition wtoken (nbf exp iat : Z) (sub level : N) : token :=
+  {| t_signer_trusted := true; t_alg_allowed := true; t_tampered := false; t_iss_ok := true; t_aud_ok := true;
+     t_kind := 0; t_nbf := ns nbf; t_exp := ns exp; t_iat := ns iat; t_sub := sub; t_level := level |}.
+Definition instants (b a : Z) : list Z :=
+  b :: a :: map (fun k => ns (b / 1000000000 + 1 + Z.of_nat k)) (seq 0 (Z.to_nat (a / 1000000000 - b / 1000000000))).
+
+Record wcase := WC {
+  w_nbf : Z; w_exp : Z; w_iat : Z;      (* the signed claims, seconds *)
+  w_sub : N; w_level : N;
+  w_basic : N;                          (* Authorization: Basic next to the cookie: 0 none, 1 alice good, 2 alice wrong *)
+  w_b : Z; w_a : Z }.                   (* clock before / after the request, nanoseconds *)
+Definition wreq (c : wcase) (m o : N) : reqx :=
+  mkreq (None, {| k_cookie := Some (wtoken (w_nbf c) (w_exp c) (w_iat c) (w_sub c) (w_level c));
+                  k_basic := if w_basic c =? 0 then None else bas 1 (w_basic c =? 1) |}) m o.
+
+(* direct call of checkAuth *)
+Record wgate := WG { wg_c : wcase; wg_mask : N; wg_meth : N; wg_origin : N;
+                     wg_adm : N; wg_user : N; wg_lvl : N; wg_code : N; wg_iat : Z (* IssuedAt, seconds *) }.
+Definition wgate_ok_at (g : wgate) (now : Z) : bool :=
+  match check_auth now true [] (wg_mask g) (wreq (wg_c g) (wg_meth g) (wg_origin g)) with
+  | Admit mu ml miat => (wg_adm g =? 1) && (mu =? wg_user g) && (ml =? wg_lvl g) && (miat =? ns (wg_iat g))%Z
+  | Refuse code => (wg_adm g =? 0) && (code =? wg_code g)
+  end.
+Definition wgate_bad (g : wgate) : bool := negb (existsb (wgate_ok_at g) (instants (w_b (wg_c g)) (w_a (wg_c g)))).
+
+(* through a route of the service mux *)
+Record wroute := WR { wr_c : wcase; wr_key : string; wr_webui : N; wr_meth : N; wr_origin : N; wr_target : N;
+                      wr_user : N; wr_eff : N }.
+Definition wroute_ok_at (w : wroute) (now : Z) : bool :=
+  match find_row (wr_key w) with
+  | None => false
+  | Some r =>
+      let '(id, effs) := run (mkenv now (wr_webui w) [] (wr_target w) 0) (wreq (wr_c w) (wr_meth w) (wr_origin w)) (rt_steps r) None in
+      let mu := match id with Some (u', _) => u' | None => 0 end in
+      (if has_auth (rt_steps r) && negb (wr_user w =? 255) then mu =? wr_user w else true) &&
+      (N.land (wr_eff w) (effs_code effs) =? wr_eff w)
+  end.
+Definition wroute_bad (w : wroute) : bool := negb (existsb (wroute_ok_at w) (instants (w_b (wr_c w)) (w_a (wr_c w)))).
+
 (* getRequiredWebUIAuthLevel() of a loaded configuration = webui_level of its backend list
    (backends travel as 0 password, 1 federated, 2 U2F, 3 SymantecVIP, 4 TOTP, 5 Okta2FA, 6 bootstrap OTP, other) *)
 Definition backend_of (n : N) : backend :=
